@@ -172,7 +172,9 @@ Definition kf_oso (c : case) : bool :=
 Definition mismatch (c : case) : bool :=
   match compare_run (c_world c) (c_name c) (c_def c) (c_obs c) with CmpDiff => true | _ => false end.
 
-Definition known (c : case) : bool := kf_oso c.
+(* a failure counts as the RECORDED finding only when the model - which reproduces that finding - predicts exactly what the
+   implementation did on this case; any further deviation makes it a new failure with this input as the replay *)
+Definition known (c : case) : bool := kf_oso c && negb (mismatch c).
 Definition spec_fail_new (c : case) : bool := spec_fail c && negb (known c).
 Definition spec_fail_known (c : case) : bool := spec_fail c && known c.
 Definition nontrivial (c : case) : bool := negb (Nat.eqb (length (ed_imports (c_def c))) 0).
